@@ -34,7 +34,7 @@ func init() {
 			}
 			return 16
 		},
-		Rule: "each case = one real service stack with the harness system SCORE 'verif' (contract.RegisterSystemScore, installed at a fixed funded address by the setup block) and 6 programs. A program is a JSON op list interpreted by the SCORE against the real call context: set/delete storage, transfer ICX to EOAs (ICXTransfer event), emit event, send a BTP message on the open network (BTPState.HandleMessage + OnBTPMessage, as ChainScore.sendBTPMessage), add validator, move the sender's balance ('drain'), nested inter-calls to itself up to depth 3 whose failure is caught or propagated, consume steps, revert(code), burn all steps. The transaction fails by revert / out of step (program or a step limit cut at a chosen count) / unknown method or bad parameter / non-payable method with value / transfer of more than the SCORE owns / out of balance at fee time (after 'drain'), after 0..k mutations at every nesting depth; it carries value in a third of the cases. It is executed alone, or as one of 2-3 failing transactions of different senders in one block (most of them send on the open BTP network 1 before failing: repeated roll-backs of the BTP state), alone or between two succeeding transfers, and the SAME block without it is executed on the same parent as control. Oracle: every account of the account trie (encoding incl. storage root), validator list, BTP data and extension data of the two results are identical except payer balance -fee and treasury +fee (fee = stepUsed x stepPrice of the receipt), and the receipt has no event logs and no BTP messages. Non-trivial = distinct failing program that executed at least one mutation before failing.",
+		Rule: "each case = one real service stack with the harness system SCORE 'verif' (contract.RegisterSystemScore, installed at a fixed funded address by the setup block) and 6 programs. A program is a JSON op list interpreted by the SCORE against the real call context: set/delete storage, transfer ICX to EOAs (ICXTransfer event), emit event, send a BTP message on the open network (BTPState.HandleMessage + OnBTPMessage, as ChainScore.sendBTPMessage), add validator, move the sender's balance ('drain'), nested inter-calls to itself up to depth 3 whose failure is caught or propagated, consume steps, revert(code), burn all steps. The transaction fails by revert / out of step (program or a step limit cut at a chosen count) / unknown method or bad parameter / non-payable method with value / transfer of more than the SCORE owns / out of balance at fee time (after 'drain'), after 0..k mutations at every nesting depth; it carries value in a third of the cases. It is executed alone, or as one of 2-3 failing transactions of different senders in one block (most of them send on the open BTP network 1 before failing: repeated roll-backs of the BTP state), alone or between two succeeding transfers, in a third of the comparisons followed by a SUCCEEDING call that dirties the SCORE account again (value, or a storage write of its own; in half of the stacks the SCORE has no storage at all before the failing writes), and the SAME block without it is executed on the same parent as control. Oracle: every account of the account trie (encoding incl. storage root), validator list, BTP data and extension data of the two results are identical except payer balance -fee and treasury +fee (fee = stepUsed x stepPrice of the receipt), and the receipt has no event logs and no BTP messages. Non-trivial = distinct failing program that executed at least one mutation before failing.",
 		MinNonTrivial: func(t string) int {
 			if t == ev.Thorough {
 				return 10000
@@ -44,6 +44,7 @@ func init() {
 		Required: []string{"programs", "failed_tx_judged", "failed_after_mutations", "status_Reverted", "status_OutOfStep", "status_OutOfBalance",
 			"status_MethodNotFound", "failed_with_value", "failed_depth_ge_3", "failed_with_caught_inner_failure", "failed_after_event", "failed_after_btp",
 			"failed_after_xfer", "failed_after_addval", "failed_after_storage", "success_changes_state", "with_neighbours", "accounts_compared",
+			"stacks_score_without_storage", "score_touched_by_later_success_after_failed_tx", "storage_less_score_written_by_failed_tx_then_touched",
 			"multi_blocks_all_failed", "multi_blocks_two_failed_btp_senders", "failed_tx_with_btp_send_and_caught_failure"},
 		Assumptions: []string{
 			"the control block (same parent, same height/time, same neighbours, without the failing transaction) captures every block-level effect that is not the transaction's",
@@ -61,14 +62,15 @@ func init() {
 }
 
 type env struct {
-	st      *feefix.Stack
-	price   *big.Int
-	defCost int64
-	inCost  int64
-	callC   int64
-	targets []module.Address
-	nonce   int64
-	keys    []string
+	st           *feefix.Stack
+	price        *big.Int
+	defCost      int64
+	inCost       int64
+	callC        int64
+	targets      []module.Address
+	nonce        int64
+	keys         []string
+	emptyStorage bool
 }
 
 type genState struct {
@@ -202,7 +204,16 @@ func run(c *ev.Ctx) {
 
 		// give the SCORE some storage first so that delete/replace have something to act on
 		ts := int64(1000000)
-		pre := e.scoreTx(st.Wallets[0], "run", []op{{Op: "set", K: "a", V: "aa"}, {Op: "set", K: "b", V: "bb"}}, nil, big.NewInt(100000000), ts)
+		// half of the stacks: give the SCORE some storage first so that delete/replace have
+		// something to act on; the other half: the SCORE account has NO storage at all when
+		// the failing transactions write to it (roll-back to a storage-less snapshot)
+		e.emptyStorage = r.Intn(2) == 0
+		preProg := []op{{Op: "set", K: "a", V: "aa"}, {Op: "set", K: "b", V: "bb"}}
+		if e.emptyStorage {
+			preProg = []op{{Op: "event", N: 1}}
+			c.Count("stacks_score_without_storage", 1)
+		}
+		pre := e.scoreTx(st.Wallets[0], "run", preProg, nil, big.NewInt(100000000), ts)
 		settle := st.Exec(st.Base, nil, ts-1000, false) // settles the first section of the opened BTP network
 		if !settle.OK() {
 			c.Violation("harness.settle-block", fmt.Sprint(settle.ValidateErr, settle.ExecErr))
@@ -406,6 +417,17 @@ func (e *env) program(c *ev.Ctx, r *rand.Rand, parent *feefix.Block, ts int64, e
 		}
 		n1, n2 = mk(6, 7, int64(1+r.Intn(1000))), mk(7, 6, int64(1+r.Intn(1000)))
 	}
+	// a SUCCEEDING transaction after the failing ones that dirties the account
+	// they wrote to (the SCORE): value only, or a storage write of its own.
+	// It is part of the control block as well.
+	var succ module.Transaction
+	if r.Intn(3) == 0 {
+		sp := []op{}
+		if r.Intn(2) == 0 {
+			sp = []op{{Op: "set", K: "z", V: hex.EncodeToString([]byte{byte(1 + r.Intn(200))})}}
+		}
+		succ = e.scoreTx(e.st.Wallets[6], "run", sp, big.NewInt(int64(1+r.Intn(1000))), big.NewInt(e.defCost+e.inCost*400+e.callC*4+100000), ts)
+	}
 	var wtests []map[string]interface{}
 	for _, p := range tests {
 		txJSON, _ := p.tx.ToJSON(module.JSONVersionLast)
@@ -422,9 +444,22 @@ func (e *env) program(c *ev.Ctx, r *rand.Rand, parent *feefix.Block, ts int64, e
 	// control
 	var control *result
 	var err error
-	if neighbours {
-		control, err = e.execute(parent, []module.Transaction{n1, n2}, ts)
-		c.Count("with_neighbours", 1)
+	if neighbours || succ != nil {
+		var ctxs []module.Transaction
+		if neighbours {
+			ctxs = append(ctxs, n1)
+			c.Count("with_neighbours", 1)
+		}
+		if succ != nil {
+			ctxs = append(ctxs, succ)
+		}
+		if neighbours {
+			ctxs = append(ctxs, n2)
+		}
+		control, err = e.execute(parent, ctxs, ts)
+		if succ != nil {
+			takeTrace(succ.ID())
+		}
 	} else {
 		if *emptyControl == nil {
 			*emptyControl, err = e.execute(parent, nil, ts)
@@ -444,10 +479,18 @@ func (e *env) program(c *ev.Ctx, r *rand.Rand, parent *feefix.Block, ts int64, e
 	for _, p := range tests {
 		txs = append(txs, p.tx)
 	}
+	succIdx := -1
+	if succ != nil {
+		succIdx = len(txs)
+		txs = append(txs, succ)
+	}
 	if neighbours {
 		txs = append(txs, n2)
 	}
 	test, err := e.execute(parent, txs, ts)
+	if succ != nil {
+		takeTrace(succ.ID())
+	}
 	traces := make([]*txTrace, len(tests))
 	for i, p := range tests {
 		traces[i] = takeTrace(p.tx.ID())
@@ -522,6 +565,20 @@ func (e *env) program(c *ev.Ctx, r *rand.Rand, parent *feefix.Block, ts int64, e
 			c.Count("success_changes_state", 1)
 		}
 		return
+	}
+	if succ != nil {
+		wit["successor_touching_score"] = true
+		if rs[succIdx].Status() != module.StatusSuccess {
+			c.Violation("harness.successor-failed", wit)
+			return
+		}
+		c.Count("score_touched_by_later_success_after_failed_tx", 1)
+		for i, p := range tests {
+			if e.emptyStorage && p.feat["storage"] && traces[i].Mutations > 0 {
+				c.Count("storage_less_score_written_by_failed_tx_then_touched", 1)
+				break
+			}
+		}
 	}
 	if multi {
 		c.Count("multi_blocks_all_failed", 1)
